@@ -685,7 +685,11 @@ func checkClientConn(key string, svc ServiceSpec, scripts map[int]Script, cs Cli
 			}
 		}
 		// reply attempts: refused ones returned an error, accepted ones did not
+		di := -1 // the dispatch the attempt belongs to (two calls may carry the same cid)
 		for _, e := range evs {
+			if e.kind == "h.enter" {
+				di++
+			}
 			if e.kind != "h.act" {
 				continue
 			}
@@ -694,10 +698,10 @@ func checkClientConn(key string, svc ServiceSpec, scripts map[int]Script, cs Cli
 			if a.Op == "rawwrite" {
 				continue
 			}
-			if contains(cm.Refused[a.Cid], a.I) && a.Err != "err" {
+			if contains(cm.Refused[di], a.I) && a.Err != "err" {
 				out = append(out, vio("refusal", "refused-attempt-accepted", "%s cid=%d action %d (%s): must be refused, handler got nil", key, a.Cid, a.I, a.Op))
 			}
-			if contains(cm.Accepted[a.Cid], a.I) && a.Err != "nil" && !faulted {
+			if contains(cm.Accepted[di], a.I) && a.Err != "nil" && !faulted {
 				out = append(out, vio("refusal", "legal-attempt-refused", "%s cid=%d action %d (%s): must be accepted, handler got an error", key, a.Cid, a.I, a.Op))
 			}
 		}
